@@ -92,6 +92,12 @@ def allowedCurvesMatch (curves : List Nat) (off : Nat) : List Nat → Nat → R 
 
 /-! ### the five heuristics -/
 
+/-- `if len(info.Curves) > len(requiredCurves) { … allowedCurves … }`: `true` = not rejected -/
+def firefoxExtraCurves (curves : List Nat) : R Bool :=
+  if curves.length > firefoxRequiredCurves.length
+  then allowedCurvesMatch curves firefoxRequiredCurves.length firefoxAllowedCurves 0
+  else .ok true
+
 /-- `looksLikeFirefox` -/
 def looksLikeFirefox (info : Info) : R Bool :=
   match assertPresenceAndOrdering firefoxExtensions info.extensions true with
@@ -103,10 +109,7 @@ def looksLikeFirefox (info : Info) : R Bool :=
     | .error e => .error e
     | .ok false => .ok false
     | .ok true =>
-      match (show R Bool from
-             if info.curves.length > firefoxRequiredCurves.length
-             then allowedCurvesMatch info.curves firefoxRequiredCurves.length firefoxAllowedCurves 0
-             else .ok true) with
+      match firefoxExtraCurves info.curves with
       | .error e => .error e
       | .ok false => .ok false
       | .ok true =>
@@ -147,23 +150,37 @@ def looksLikeEdge (info : Info) : R Bool :=
     else if hasGreaseCiphers info.ciphers then .ok false
     else .ok true
 
+/-- the `if !assert(…) { iOS 11 order } else { SCSV first }` part of looksLikeSafari: `true` = go on -/
+def safariSecond (first : Bool) (info : Info) : R Bool :=
+  if !first then assertPresenceAndOrdering safariExtensionsIOS11 info.extensions true
+  else if info.ciphers.length < 1 then .ok false
+  else match idx info.ciphers 0 with
+    | .error e => .error e
+    | .ok c0 => .ok (decide (c0 = scsvRenegotiation))
+
 /-- `looksLikeSafari` -/
 def looksLikeSafari (info : Info) : R Bool :=
   match assertPresenceAndOrdering safariExtensions info.extensions true with
   | .error e => .error e
   | .ok first =>
-    match (show R Bool from
-           if !first then
-             assertPresenceAndOrdering safariExtensionsIOS11 info.extensions true
-           else if info.ciphers.length < 1 then .ok false
-           else match idx info.ciphers 0 with
-             | .error e => .error e
-             | .ok c0 => .ok (decide (c0 = scsvRenegotiation))) with
+    match safariSecond first info with
     | .error e => .error e
     | .ok false => .ok false
     | .ok true =>
       if hasGreaseCiphers info.ciphers then .ok false else
       assertPresenceAndOrdering safariCiphers info.ciphers true
+
+/-- `infoCurves` of looksLikeTor: the optional leading curve 29 removed; `none` = return false -/
+def torCurves (info : Info) : R (Option (List Nat)) :=
+  if info.curves.length = 4 then
+    match idx info.curves 0 with
+    | .error e => .error e
+    | .ok c0 =>
+      if c0 ≠ 29 then .ok none else
+      match sliceFrom info.curves 1 with
+      | .error e => .error e
+      | .ok t => .ok (some t)
+  else .ok (some info.curves)
 
 /-- `looksLikeTor` -/
 def looksLikeTor (info : Info) : R Bool :=
@@ -172,16 +189,7 @@ def looksLikeTor (info : Info) : R Bool :=
   | .ok false => .ok false
   | .ok true =>
     if info.extensions.any (· == 35) then .ok false else
-    match (show R (Option (List Nat)) from
-           if info.curves.length = 4 then
-             match idx info.curves 0 with
-             | .error e => .error e
-             | .ok c0 =>
-               if c0 ≠ 29 then .ok none else
-               match sliceFrom info.curves 1 with
-               | .error e => .error e
-               | .ok t => .ok (some t)
-           else .ok (some info.curves)) with
+    match torCurves info with
     | .error e => .error e
     | .ok none => .ok false
     | .ok (some infoCurves) =>
@@ -195,32 +203,40 @@ def looksLikeTor (info : Info) : R Bool :=
 
 /-! ### `getVersion` up to `strconv.ParseFloat` -/
 
+/-- `end` of getVersion: the first space after `start`, else `len(ua)` -/
+def tokenEnd (uaLen start : Nat) (tail : Bytes) : Nat :=
+  match indexOf tail [0x20] with
+  | none => uaLen
+  | some e => e + start
+
+/-- dashes removed, every dot after the first removed -/
+def cleanVersion (tok : Bytes) : R Bytes :=
+  let strVer := removeByte tok 0x2d
+  match indexOf strVer [0x2e] with
+  | none => .ok strVer
+  | some fd =>
+    match slice strVer 0 (fd + 1) with
+    | .error e => .error e
+    | .ok a =>
+      match sliceFrom strVer (fd + 1) with
+      | .error e => .error e
+      | .ok b => .ok (a ++ removeByte b 0x2e)
+
 /-- The string handed to `strconv.ParseFloat` (`none` = software name not found, result -1). -/
 def getVersionStr (ua name : Bytes) : R (Option Bytes) :=
-  let search := name ++ [0x2f]
-  match indexOf ua search with
+  match indexOf ua (name ++ [0x2f]) with
   | none => .ok none
   | some start0 =>
-    let start := start0 + search.length
-    match sliceFrom ua start with
+    match sliceFrom ua (start0 + (name ++ [0x2f]).length) with
     | .error e => .error e
     | .ok tail =>
-      let end_ := match indexOf tail [0x20] with
-        | none => ua.length
-        | some e => e + start
-      match slice ua start end_ with
+      match slice ua (start0 + (name ++ [0x2f]).length)
+          (tokenEnd ua.length (start0 + (name ++ [0x2f]).length) tail) with
       | .error e => .error e
       | .ok tok =>
-        let strVer := removeByte tok 0x2d
-        match indexOf strVer [0x2e] with
-        | none => .ok (some strVer)
-        | some fd =>
-          match slice strVer 0 (fd + 1) with
-          | .error e => .error e
-          | .ok a =>
-            match sliceFrom strVer (fd + 1) with
-            | .error e => .error e
-            | .ok b => .ok (some (a ++ removeByte b 0x2e))
+        match cleanVersion tok with
+        | .error e => .error e
+        | .ok s => .ok (some s)
 
 def isDigit (b : UInt8) : Bool := 0x30 ≤ b && b ≤ 0x39
 
